@@ -21,6 +21,13 @@ CHECKS = {'C01': {'note': 'trusted: rustc MIR + trait resolution, PANIC_API/SAFE
          'technique': 'MIR callee/cast rules over comparison functions',
          'text': 'Decides the wiring of the comparison layer: != is !(==), one ord behind < <= > >=, no value-changing cast in ord/eq/type_prop, sort/min/max '
                  'use that order with strict replacement. Does not decide transitivity on doubles or the constant sets inside lt/le/gt/ge.'},
+ 'C07': {'note': 'trusted: rustc MIR + resolved callees; Vec IntoIter yields front to back; user-bound macros outside the analysed program',
+         'technique': 'MIR skeleton extraction (operand expression trees + dominance + edge reachability) over the macro loop functions',
+         'text': 'Decides the loop STRUCTURE shared by all/exists/exists_one/filter/map/reduce, not their equality with the defining folds: documented arity constants; the loop-variable name is '
+                 'read by eval_ident on an empty interpreter without resolving (an outer binding of the same name cannot capture it); per element bind_param on the private copy from setup_context, '
+                 'then new_child(ctx, copies), then run_raw(documented body index, resolve) in that dominance order inside the loop; a failing body cannot reach the next element; all returns false on '
+                 'the first falsy body, exists true on the first truthy one, exists_one false once the count exceeds 1 and count == 1 at the end, filter/map push only on the truthy edge, reduce threads '
+                 'seed and step results through the first name; lists are visited by their forward iterator, maps by sorted keys. Equality with the folds over all lists is not decided.'},
  'C08': {'note': 'trusted: rustc MIR; frozen caller tables',
          'technique': 'MIR discriminant-switch extraction + who-may-construct rule',
          'text': 'Decides which failures count as absence: has/coalesce partition CelError into exactly {Binding, Attribute} vs propagate, only the frozen '
@@ -74,8 +81,6 @@ NOT_APPLICABLE = {'C02': "the deciding rule (level chain + token table extracted
         'The ternary defect found while reading was repaired (fix: d45e1c9) but no check guards it',
  'C06': 'index bounds are covered as panic edges by C01 (table rows of CelValue::index); construction-order agreement of MkList/MkDict vs the folder needs the '
         'template extractor (not built)',
- 'C07': 'equality of each macro with its defining fold quantifies over run-time lists; the structural clauses (fixed key order, inherited depth) are checked '
-        'under C11 R11.4 and C01 R01.4, the rest needs the skeleton extractor (not built)',
  'C09': 'fold/VM agreement needs the pairing of const-arm expressions with VM arms from the expanded compile! sites (syntax-level extractor, not built); a '
         'remaining genuine disagreement is recorded in DESIGN.md ([x].filter(v, true) folded with x unbound) without a check',
  'C10': 'well-formedness of all emitted templates needs the emission-template extractor (not built); only the VM-side bounds check is verified, under C01 '
